@@ -94,18 +94,18 @@ def run(rep):
             r = rng.random()
             pick = lambda k: [rng.choice(names) if rng.random() > 0.15 else rng.choice(['bogus', 'xyz', 'ALL', 'nS'])
                               for _ in range(k)]
-            if r < 0.25:
+            if r < 0.22:
                 args = pick(rng.randint(1, 3)); optxt = 'fix ' + ' '.join(args)
                 call = lambda a=args: fit.fix_parameters(*a)
-            elif r < 0.32:
+            elif r < 0.31:
                 args = ['ALL'] + (pick(1) if rng.random() < 0.3 else []); optxt = 'fix ' + ' '.join(args)
                 call = lambda a=args: fit.fix_parameters(*a)
-            elif r < 0.36:
+            elif r < 0.34:
                 optxt = 'fix'; call = lambda: fit.fix_parameters()
-            elif r < 0.66:
+            elif r < 0.56:
                 args = pick(rng.randint(0, 3)); optxt = ('release ' + ' '.join(args)).strip()
                 call = lambda a=args: fit.release_parameters(*a)
-            elif r < 0.88:
+            elif r < 0.74:
                 d = {}
                 for n in pick(rng.randint(1, 3)):
                     d[n] = (rng.choice([-2.0, 0.0, 0.5]), rng.choice([1.5, 3.0, 8.0]))
@@ -117,6 +117,7 @@ def run(rep):
                 optxt = 'limit ' + ' '.join('%s=%s' % (k, lim_token(table, v)) for k, v in d.items())
                 call = lambda d=d: fit.limit_parameters(d)
             else:
+                # asked often: a stale answer shows only when the question is repeated after a change
                 optxt = 'free'; call = lambda: fit.free_parameters()
             try:
                 res = call()
